@@ -154,6 +154,34 @@ def VanishesOffKept (d : Dir) (e : Bool) (xs : List ℝ) (g : ℝ → ℝ) : Pro
   ∀ k < xs.length, (k < (keptRange d e xs.length).1 ∨ (keptRange d e xs.length).2 ≤ k) →
     g (node xs k) = 0
 
+theorem vanishes_endpoints (d : Dir) (xs : List ℝ) (g : ℝ → ℝ) : VanishesOffKept d true xs g := by
+  intro k hk hk'
+  simp only [keptRange, if_true] at hk'
+  omega
+
+theorem vanishes_interior {d : Dir} (hd : d ≠ Dir.pp) (xs : List ℝ) (g : ℝ → ℝ)
+    (h0 : g (xs.getD 0 0) = 0) (h1 : g (xs.getD (xs.length - 1) 0) = 0) :
+    VanishesOffKept d false xs g := by
+  intro k hk hk'
+  have hr : keptRange d false xs.length = (1, xs.length - 1) := by
+    cases d <;> simp_all [keptRange]
+  rw [hr] at hk'
+  rcases hk' with hk' | hk'
+  · have : k = 0 := by omega
+    subst this; exact h0
+  · have : k = xs.length - 1 := by omega
+    subst this; exact h1
+
+theorem vanishes_pp (xs : List ℝ) (g : ℝ → ℝ) (h1 : g (xs.getD (xs.length - 1) 0) = 0) :
+    VanishesOffKept Dir.pp false xs g := by
+  intro k hk hk'
+  simp only [keptRange, Bool.false_eq_true, if_false] at hk'
+  have : k = xs.length - 1 := by omega
+  subst this; exact h1
+
+theorem kept_endpoints (d : Dir) (xs : List ℝ) : kept d true xs = xs := by
+  simp [kept, keptRange]
+
 theorem kept_sum (d : Dir) (e : Bool) (xs : List ℝ) (g : ℝ → ℝ) (G : ℕ → ℝ)
     (hv : VanishesOffKept d e xs g) :
     ∑ j ∈ range ((kept d e xs).map g).length,
@@ -249,7 +277,8 @@ theorem basis_fin_eq (xs : List ℝ) {j : ℕ} (hj : j < xs.length) :
       exact ⟨fun e => hq (Fin.ext e), q.2⟩
   rw [this, Finset.prod_map]
   refine Finset.prod_congr rfl fun k _ => ?_
-  simp [node, List.getD_eq_getElem]
+  simp only [node, Fin.valEmbedding_apply, Fin.getElem_fin, List.getD_eq_getElem _ _ hj,
+    List.getD_eq_getElem _ _ k.2]
 
 /-! ## derivative of the Lagrange basis at the nodes -/
 
@@ -567,6 +596,33 @@ theorem lobatto_pairwise_lt {n : ℕ} (hn : 1 ≤ n) :
 theorem lobatto_nodup {n : ℕ} (hn : 1 ≤ n) :
     ((List.range (n + 1)).map (fun j : ℕ => -Real.cos (j * Real.pi / n))).Nodup :=
   (lobatto_pairwise_lt hn).imp ne_of_lt
+
+/-! ## example data for the non-vacuity examples of `Props/C16.lean` -/
+
+/-- example node list (4 distinct nodes, end points `±1`). -/
+noncomputable def xs0 : List ℝ := [-1, -1/2, 1/3, 1]
+
+/-- example polynomial `X³ - X`, degree 3 < 4, zero at both end points. -/
+noncomputable def p0 : ℝ[X] := X ^ 3 - X
+
+theorem xs0_nodup : xs0.Nodup := by
+  norm_num [xs0]
+
+theorem p0_natDegree : p0.natDegree < xs0.length := by
+  have : p0.natDegree ≤ 3 := by unfold p0; compute_degree
+  simp only [xs0, List.length_cons, List.length_nil]; omega
+
+theorem p0_first : p0.eval (xs0.getD 0 0) = 0 := by norm_num [p0, xs0]
+
+theorem p0_last : p0.eval (xs0.getD (xs0.length - 1) 0) = 0 := by norm_num [p0, xs0]
+
+/-- the interior grid values of `p0` on `xs0` are `[3/8, -8/27]`. -/
+theorem kept_values : (kept Dir.z false xs0).map (fun t => p0.eval t) = [3/8, -8/27] := by
+  norm_num [kept, keptRange, xs0, p0]
+
+/-- the derivative `3x² - 1` of `p0` on `xs0` is `[2, -1/4, -2/3, 2]`. -/
+theorem deriv_values : xs0.map (fun t => (derivative p0).eval t) = [2, -1/4, -2/3, 2] := by
+  norm_num [xs0, p0]
 
 end
 
